@@ -4,6 +4,20 @@ import json, glob, os
 ROOT = os.path.dirname(os.path.dirname(os.path.abspath(__file__)))
 # seeds that the quick tier missed when first tried, and what was strengthened
 HISTORY = {
+ "C01-j": "missed at first (no \\global\\let X=X self-alias among the assignment forms); G-/L-self-alias for every command kind",
+ "C04-i": "missed at first (\\hyphenpenalty / \\exhyphenpenalty never below -10000 with a matching discretionary in the list); family disc-penalties",
+ "C05-i": "missed at first (add_word route in boxworks-text not driven); family add-word-route",
+ "C05-j": "missed by C05 at first (caught by C17); family kern-design-sizes",
+ "C08-j": "missed at first (integer parameters only held in-range values at the checkpoint); out-of-range 'disabled' values for every integer parameter",
+ "C11-i": "missed by C11 at first (caught by C10); tables at their maximum size (ne = 256 ...) in full round trips",
+ "C11-j": "missed at first; VARCHAR recipes with the same pieces in different slots",
+ "C12-j": "missed at first (no non-ASCII white space inside words; spelling rule accepted dropped characters >= 128); tightened spelling rule + white-space members",
+ "C13-j": "missed at first (all letters were Unicode-alphabetic); letters outside every Unicode class (apostrophe, U+2019, U+200D, @, U+1F600)",
+ "C14-i": "missed by C14 at first (caught by C13); plain TeX's exception words in the vocabulary, family cmr10-custom-exceptions",
+ "C14-j": "missed by C14 at first (caught by C13); re-declared exceptions in cmr10-custom-exceptions",
+ "C15-i": "missed at first (no zero-width item that is the tallest/deepest); struts, zero-width boxes/glyphs",
+ "C15-j": "not reported on purpose: conforms to the statement (see meta.json judgement)",
+ "C19-j": "missed at first (balanced groups only on the last line of read files); read files with early-closing groups",
  "C05-h": "missed at first (no family took the raw-TFM route through unpack_entrypoint); family tfm-route-redirect-tables",
  "C11-h": "missed by C11 at first (caught by C10's header-byte sweep); face bytes around the coded/numbered boundary added to the C11 header families",
  "C01-h": "missed at first (macro kinds never combined \\global with \\long/\\outer); prefix-combination assignment forms added",
